@@ -177,7 +177,8 @@ class Ctx:
         self.last_stderr = p.stderr
         if p.returncode not in (0, 3):   # 3 = watchdog fired: the timeout event is in shard 0
             # a crash the harness could not recover from (fatal runtime error, stack exhaustion, OOM kill)
-            self.crash = {"family": family, "rc": p.returncode, "stderr": p.stderr[-3000:]}
+            self.crash = {"family": family, "rc": p.returncode,
+                          "stderr": p.stderr if len(p.stderr) < 4500 else p.stderr[:2500] + "\n...\n" + p.stderr[-1500:]}
             raise HarnessDied(family, p.returncode, p.stderr, out)
         files = sorted(os.path.join(out, f) for f in os.listdir(out) if f.endswith(".ndjson"))
         return [f for f in files if os.path.getsize(f) > 0]
